@@ -294,7 +294,7 @@ def check_optimality(case, ctx):
     ctx.label(case["tomo"], case["shape"], f"flag:{case['flag']}", case["loss"], "data:" + case["datadesc"]["data"], case["stop_mode"])
     res, loss = c10.run_lossmin(case, qt, empi)
     det = res.detailed_results[0]
-    if det.k >= case["max_iter"]:
+    if det.k >= case["max_iter"] or c10.proj_cap_hit(ctx):
         ctx.skip("max-iteration")
         return
     z_est = tomo.estimate_stacked(res.estimated_qoperation)
@@ -398,7 +398,7 @@ def check_cvxpy(case, ctx):
         ctx.leq(l_est, loss_ref(name, pz, q), 2e-5 * (1 + abs(l_est)), "cvxpy:no_better_competitor", cname)
     # agreement with backtracking (equal shot counts per schedule in every generated dataset)
     bres, _ = c10.run_lossmin(case, qt, empi)
-    if bres.detailed_results[0].k >= case["max_iter"]:
+    if bres.detailed_results[0].k >= case["max_iter"] or c10.proj_cap_hit(ctx):
         ctx.skip("max-iteration")
     else:
         zb = tomo.estimate_stacked(bres.estimated_qoperation)
